@@ -260,4 +260,4 @@ def run_shard(ctx, shard, acc):
         if f:
             acc.fail(f)
 
-    hyp_search(acc, body, mix(ctx.seed, 'C08', shard['index']), ctx.budget(250, 5000))
+    hyp_search(acc, body, mix(ctx.seed, 'C08', shard['index']), ctx.budget(700, 5000))
